@@ -219,11 +219,15 @@ def idsOK (owner : Array Slot) (ids : Array Nat) (mk : Nat → Slot) : Bool :=
     | some k => owner[k]? == some (mk j)
     | none => false
 
-def nameOK (name : List Char) : Bool :=
+/-- the name fits the 64-byte field (at most 31 UTF-16 units and a terminator), is not empty, has no NUL,
+    and does not start with something `encoding_rs` takes for a byte-order mark -/
+def nameEncOK (name : List Char) : Bool :=
   let u := utf16Units name
-  0 < u.length && u.length ≤ 31 && !(name.contains (Char.ofNat 0)) && name != rootName &&
+  0 < u.length && u.length ≤ 31 && !(name.contains (Char.ofNat 0)) &&
     u.head? != some 0xFEFF && u.head? != some 0xFFFE &&
     !(u.head? == some 0xBBEF && (u.getD 1 0) % 256 == 0xBF)
+
+def nameOK (name : List Char) : Bool := nameEncOK name && name != rootName
 
 def validB (streams : List Stream) (L : Layout) : Bool :=
   let n := streams.length
